@@ -129,6 +129,7 @@ def parseLine : List String → Option Line
   | ["gauge", v] => some (.gauge (v.toInt?.getD (-999)))
   | ["ddone", d, c] => some (.act (.ddone (nat! d) (c = "1")))
   | ["cbCancelled", d] => some (.act (.cbCancelled (nat! d)))
+  | ["cbMark", f, d, i] => some (.act (.cbMark (nat! f) (nat! d) (i = "1")))
   | "cbPolicy" :: d :: rest => (parsePol rest).map (fun r => .act (.cbPolicy (nat! d) r))
   | ["cbRetry", d] => some (.act (.cbRetry (nat! d)))
   | ["cbFinal", d] => some (.act (.cbFinal (nat! d)))
@@ -141,7 +142,7 @@ def parseLine : List String → Option Line
 def describe (s : St) : String :=
   let js := s.jobs.map (fun j => s!"(f{j.fut} a{j.attempt} w{j.whenT} d{j.del} stop={j.stop} old={j.old})")
   let w := s.submitting.map (fun j => s!"(f{j.fut} a{j.attempt} d{j.del})")
-  s!"now={s.now} gauge={s.qGauge} jobs={js} submitting={w} delDone={s.delDone} done={s.done} cancelling={s.cancelling.map (·.1)} decs={s.decs.map (·.1)} submits={s.submits}"
+  s!"now={s.now} gauge={s.qGauge} jobs={js} submitting={w} delDone={s.delDone} done={s.done} cancelling={s.cancelling.map (·.1)} marks={s.marks} decs={s.decs.map (·.1)} submits={s.submits}"
 
 /-- one line; `none` = not enabled -/
 def stepLine (s : St) : Line → Option St
